@@ -101,8 +101,17 @@ func (a *APIFilteredSecretPublisher) PublishConnection(ctx context.Context, o re
 			// We consider the update to be a no-op and don't allow it if the
 			// current and existing secret data are identical.
 
-			//nolint:forcetypeassert // These will always be secrets.
-			return !cmp.Equal(current.(*corev1.Secret).Data, desired.(*corev1.Secret).Data, cmpopts.EquateEmpty())
+			// We patch (merge) rather than replace the secret, so keys that
+			// are only in the current secret stay there whatever we do. The
+			// patch is a no-op, and must not count as publishing, unless a
+			// desired key is missing or differs.
+			cd := current.(*corev1.Secret).Data               //nolint:forcetypeassert // These will always be secrets.
+			for k, v := range desired.(*corev1.Secret).Data { //nolint:forcetypeassert // These will always be secrets.
+				if cv, ok := cd[k]; !ok || !cmp.Equal(cv, v, cmpopts.EquateEmpty()) {
+					return true
+				}
+			}
+			return false
 		}),
 	)
 	if resource.IsNotAllowed(err) {
